@@ -574,6 +574,107 @@ def gen_facade(mods):
     return "\n".join(lines), dict(methods=methods, attach_table=table, unknown=unknown)
 
 
+def gen_loops(mods):
+    """every loop of the response / sense decoders: the loop variable and how much of it one iteration consumes"""
+    from translate import HEADER, coq_str, const_int, src_of
+    loops, fors, unknown = [], [], []
+
+    def classify(k, env, guards):
+        """stride expression -> Coq term of type stride"""
+        c = const_int(k)
+        if c is not None:
+            return "SConst %d" % c
+        if isinstance(k, ast.BinOp) and isinstance(k.op, ast.Add):
+            for a, b in ((k.left, k.right), (k.right, k.left)):
+                cb = const_int(b)
+                if cb is not None and cb >= 0:
+                    return "SAddConst %d" % cb        # e + c with e read from the buffer (non-negative)
+        if isinstance(k, ast.Name):
+            if k.id in guards:
+                return "SGuarded %s" % coq_str(k.id)   # the loop condition requires it to be non-zero
+            if k.id in env:
+                return classify(env[k.id], {}, guards) if not isinstance(env[k.id], ast.Name) else "SData %s" % coq_str(k.id)
+            return "SData %s" % coq_str(k.id)
+        return "SData %s" % coq_str(ast.unparse(k)[:60])
+
+    for mod in mods:
+        if not (mod.stem.startswith("scsi_cdb_") or mod.stem == "scsi_sense"):
+            continue
+        for cls in [n for n in mod.tree.body if isinstance(n, ast.ClassDef)]:
+            for fn in [f for f in cls.body if isinstance(f, ast.FunctionDef)]:
+                if not (fn.name.startswith("unmarshall") or fn.name in ("__init__", "__str__", "print_data", "_describe_ascq") and mod.stem == "scsi_sense"):
+                    continue
+                where = "%s.%s.%s" % (mod.stem, cls.name, fn.name)
+                # local definitions x = <expr> (last one wins; good enough to resolve `_bc = data[3] + 4`)
+                env = {}
+                for node in ast.walk(fn):
+                    if isinstance(node, ast.Assign) and len(node.targets) == 1 and isinstance(node.targets[0], ast.Name):
+                        env[node.targets[0].id] = node.value
+                for node in ast.walk(fn):
+                    if isinstance(node, ast.While):
+                        t = node.test
+                        conj = t.values if isinstance(t, ast.BoolOp) and isinstance(t.op, ast.And) else [t]
+                        lv, guards = None, set()
+                        for cnd in conj:
+                            if isinstance(cnd, ast.Call) and dotted(cnd.func) == "len" and len(cnd.args) == 1 and isinstance(cnd.args[0], ast.Name):
+                                lv = cnd.args[0].id
+                            elif isinstance(cnd, ast.Name):
+                                guards.add(cnd.id)
+                        if lv is None:
+                            unknown.append("%s: while %s" % (where, ast.unparse(t)[:60]))
+                            loops.append("(%s, %s, SUnknown)" % (coq_str(where), coq_str(ast.unparse(t)[:60])))
+                            continue
+                        # unconditional advances  lv = lv[K:]  directly in the loop body
+                        strides = []
+                        for st in node.body:
+                            if isinstance(st, ast.Assign) and len(st.targets) == 1 and isinstance(st.targets[0], ast.Name) \
+                                    and st.targets[0].id == lv and isinstance(st.value, ast.Subscript) \
+                                    and isinstance(st.value.value, ast.Name) and st.value.value.id == lv \
+                                    and isinstance(st.value.slice, ast.Slice) and st.value.slice.upper is None \
+                                    and st.value.slice.step is None and st.value.slice.lower is not None:
+                                strides.append(classify(st.value.slice.lower, env, guards))
+                        # any other assignment to the loop variable (re-slicing from elsewhere) defeats the argument
+                        other = 0
+                        for sub in ast.walk(node):
+                            if isinstance(sub, ast.Assign) and any(isinstance(tg, ast.Name) and tg.id == lv for tg in sub.targets):
+                                v = sub.value
+                                if not (isinstance(v, ast.Subscript) and isinstance(v.value, ast.Name) and v.value.id == lv
+                                        and isinstance(v.slice, ast.Slice) and v.slice.upper is None and v.slice.lower is not None):
+                                    other += 1
+                        best = "SNone"
+                        for sdesc in strides:
+                            if sdesc.startswith("SConst") and int(sdesc.split()[1]) >= 1:
+                                best = sdesc
+                                break
+                            if sdesc.startswith("SAddConst") and int(sdesc.split()[1]) >= 1:
+                                best = sdesc
+                                break
+                            if sdesc.startswith("SGuarded"):
+                                best = sdesc
+                                break
+                            best = sdesc
+                        if other:
+                            best = "SUnknown"
+                        loops.append("(%s, %s, %s)" % (coq_str(where), coq_str(lv), best))
+                    if isinstance(node, ast.For):
+                        it = node.iter
+                        kind = "other"
+                        if isinstance(it, ast.Subscript) or isinstance(it, ast.Name):
+                            kind = "buffer"
+                        elif isinstance(it, ast.Call) and dotted(it.func) == "range":
+                            kind = "range"
+                        elif isinstance(it, ast.Call) and isinstance(it.func, ast.Attribute) and it.func.attr in ("items", "keys", "values"):
+                            kind = "dict"
+                        fors.append("(%s, %s)" % (coq_str(where), coq_str(kind)))
+                        if kind == "other":
+                            unknown.append("%s: for ... in %s" % (where, ast.unparse(it)[:60]))
+    lines = [HEADER.format(src="every unmarshall* function of scsi_cdb_*.py and the sense decoder (loop skeletons)", extra=" Model.Loops")]
+    lines.append("Definition loops : list (string * string * stride) := [\n  %s].\n" % ";\n  ".join(loops))
+    lines.append("Definition for_loops : list (string * string) := [%s].\n" % "; ".join(fors))
+    lines.append("Definition unknown_loops : list string := [%s].\n" % "; ".join(coq_str(u) for u in unknown))
+    return "\n".join(lines), dict(loops=loops, fors=fors, unknown=unknown)
+
+
 def gen_footprint(mods):
     """whole-scan of the command modules for run-time writes to state shared between command objects:
     attributes of class objects, module globals, and the caller's own dict/list arguments"""
